@@ -426,14 +426,14 @@ def check_mirror(ctx, rep, rule='M-mirror'):
                '%s must delegate to %s, calls %s' % (short(name), short(target), [short(c) for c in callees]), loc=b.loc(b.j['line_lo']),
                reason='table-row')
     # Extend: every item the iterator yields is inserted once (key and value in this order), nothing else is
-    for name, nargs in (('<splay::tree::SplayTree<K, V, C> as std::iter::Extend<(K, V)>>::extend', 3),
-                        ('<splay::set::SplaySet<T, C> as std::iter::Extend<T>>::extend', 2)):
+    for name, nargs, target in (('<splay::tree::SplayTree<K, V, C> as std::iter::Extend<(K, V)>>::extend', 3, T + 'insert'),
+                                ('<splay::set::SplaySet<T, C> as std::iter::Extend<T>>::extend', 2, 'splay::set::SplaySet::<T, C>::insert')):
         be, pe = rep.explore(ctx, name, rule)
         if be is None:
             continue
         ok = bool(pe)
         for p in pe:
-            ins = [e for e in p.calls() if e['callee'].endswith('::insert') and e.get('depth', 0) == 0]
+            ins = [e for e in p.calls() if e['callee'] == target and e.get('depth', 0) == 0]
             yielded = any(strip_upd(v)[0] == 'discr' and 'next(' in show(noepoch(v)) and c == ('eq', 1) for (v, c) in p.conds)
             if p.end == 'backedge' and yielded:
                 good = len(ins) == 1 and len(ins[0]['args']) == nargs and show(noepoch(ins[0]['args'][0])) == 'self'
